@@ -138,7 +138,17 @@ EqText(c) == IF c.kind = "inv" THEN "(" \o Text(c) \o ") = " \o XText(c.x) ELSE 
 
 CaseId(c) == c.kind \o ":" \o Text(c)
 
+(* (x op q) = <the literal of the primary reference result>: a second look at the result  *)
+(* through the implementation's own equality, so that a hidden component finer or coarser *)
+(* than the precision shows (Appendix F rule 4)                                           *)
+ResultText(c) ==
+  IF c.kind = "ar" /\ IsTemporalUnit(c.q.unit) /\ ~TimeHasNoUnit(c.x, RankOf(c.q.unit))
+  THEN LET r == Primary(c.x, c.op, RankOf(c.q.unit), c.q.th) IN
+       IF r.oob THEN "" ELSE "(" \o Text(c) \o ") = " \o XText(r.v)
+  ELSE ""
+
 Emit(c) == [id |-> CaseId(c), cs |-> c, text |-> Text(c), etext |-> EnvText(c), ftext |-> FhirText(c), qtext |-> EqText(c),
+            rtext |-> ResultText(c),
             xs |-> IF c.kind = "qq" THEN "" ELSE XText(c.x),
             n1 |-> SignedAmountText(c.q.th), n2 |-> SignedAmountText(c.q2.th)]
 
@@ -156,8 +166,10 @@ PermittedAr(x, op, q) ==
   ELSE LET rank == RankOf(q.unit)
            ucum == ClsOf(q.unit) = "ucum"
        IN IF TimeHasNoUnit(x, rank) THEN Perm(FALSE, TRUE, FALSE, {x}, {})             \* unsupported on a Time: error, or whole days wrap
-          ELSE LET R == Results(x, op, rank, q.th) IN
-               Perm(\E r \in R : r.oob, ucum, FALSE, {r.v : r \in {rr \in R : ~rr.oob}}, {})
+          ELSE LET R == Results(x, op, rank, q.th)
+                   its == {r.v : r \in {rr \in R : ~rr.oob}}
+                   pr == Primary(x, op, rank, q.th)
+               IN Perm(\E r \in R : r.oob, ucum, FALSE, its, {SameTemporal(v, pr.v) : v \in its})
 
 PermittedInv(x, op, q) ==
   LET P1 == PermittedAr(x, op, q) IN
@@ -223,6 +235,12 @@ AcceptQQ(out, R) ==
            ELSE it.t = "b" /\ it.b = R.r.b
 
 (***************************** classification ******************************)
+(* does a Time result pass midnight (part of the signature: the hidden day) *)
+Wraps(x, op, q) ==
+  /\ x.t = "time" /\ IsTemporalUnit(q.unit) /\ ~TimeHasNoUnit(x, RankOf(q.unit))
+  /\ LET dl == Delta("trunc", x.p, RankOf(q.unit), q.th) IN
+     dl.dd # 0 \/ XMs(x) + SignOf(op) * dl.ms \notin 0..(DayMs - 1)
+
 (* what a rejected observation looks like (part of the signature) *)
 AmtClass(th) == (IF th < 0 THEN "neg" ELSE IF th = 0 THEN "zero" ELSE "pos") \o "-" \o (IF th % 1000 = 0 THEN "int" ELSE "frac")
 
